@@ -81,16 +81,17 @@ impl Prop for C05 {
     const RESETS_PANIC_HOOK: bool = true;
 
     fn lanes(tier: Tier) -> Vec<Lane> {
+        // time caps are safety nets (5-10x the expected duration on an idle 16-core machine)
         vec![
-            Lane::new("sched", tier.pick(32_000, 1_600_000))
-                .cap(tier.pick(60, 900))
+            Lane::new("sched", tier.pick(16_000, 1_600_000))
+                .cap(tier.pick(120, 1500))
                 .hang(None)
-                .floor(tier.pick(5_000, 200_000)),
+                .floor(tier.pick(2_000, 200_000)),
             Lane::new("chaos", tier.pick(480, 16_000))
-                .cap(tier.pick(30, 600))
+                .cap(tier.pick(150, 1200))
                 .hang(None)
                 .shards(8)
-                .floor(tier.pick(100, 3_000)),
+                .floor(tier.pick(40, 3_000)),
         ]
     }
 
